@@ -62,19 +62,50 @@ def ref_eval(ref_stack, value, maximize, calls):
     return go(0)
 
 
-def build(kinds, maximize, feed, counter, use_cache=False, array_valued=False):
-    from pyhms.core.problem import EvalCountingProblem, EvalCutoffProblem, FunctionProblem, PrecisionCutoffProblem, StatsGatheringProblem
+TARGET = 0.25  # the user-defined innermost problem prefers fitness values close to this level
+
+# call shapes: extra positional / keyword arguments for the objective f(x, offset=0.0, scale=1.0) = value * scale + offset
+SHAPES = [((), {}), ((0.25,), {}), ((), {"scale": 2.0}), ((0.5,), {"scale": -1.0}), ((), {"offset": -0.5})]
+
+
+def shaped(v, shape):
+    a, k = shape
+    offset = a[0] if a else k.get("offset", 0.0)
+    return v * k.get("scale", 1.0) + offset
+
+
+def build(kinds, maximize, feed, counter, use_cache=False, array_valued=False, inner="function"):
+    from pyhms.core.problem import EvalCountingProblem, EvalCutoffProblem, FunctionProblem, PrecisionCutoffProblem, Problem, StatsGatheringProblem
 
     bounds = np.array([(-1.0, 2.0), (3.0, 4.5)])
 
-    def f(x):
+    def f(x, offset=0.0, scale=1.0):
         counter[0] += 1
         if array_valued:
             # objectives written as `lambda x: -x**2` on a 1-D genome return a 1-element array
-            return np.array([feed[0]])
-        return feed[0]
+            return np.array([feed[0] * scale + offset])
+        return feed[0] * scale + offset
 
-    fp = FunctionProblem(f, bounds=bounds, maximize=maximize, **({"use_cache": True} if use_cache else {}))
+    if inner == "user":
+        # a user-written Problem whose order is not the plain numeric one: the closer to TARGET the better
+        class TargetProblem(Problem):
+            def evaluate(self, genome, *args, **kwargs):
+                return f(genome, *args, **kwargs)
+
+            def worse_than(self, a, b):
+                return abs(a - TARGET) > abs(b - TARGET)
+
+            @property
+            def bounds(self):
+                return bounds
+
+            @property
+            def maximize(self):
+                return maximize
+
+        fp = TargetProblem()
+    else:
+        fp = FunctionProblem(f, bounds=bounds, maximize=maximize, **({"use_cache": True} if use_cache else {}))
     p = fp
     objs = []
     for k in reversed(kinds):  # kinds[0] is the outermost
@@ -94,7 +125,7 @@ def build(kinds, maximize, feed, counter, use_cache=False, array_valued=False):
 PAIRS = [(0.0, 1.0), (1.0, 0.0), (2.0, 2.0), (-1.0, math.inf), (-math.inf, 3.0)]
 
 
-def run_stack(res, kinds, maximize, seqlen, vals, only_seq=None, use_cache=False, array_valued=False):
+def run_stack(res, kinds, maximize, seqlen, vals, only_seq=None, use_cache=False, array_valued=False, inner="function", shapes=False):
     from pyhms.core.problem import get_function_problem
     from pyhms.stop_conditions import SingularProblemPrecisionReached
 
@@ -104,7 +135,7 @@ def run_stack(res, kinds, maximize, seqlen, vals, only_seq=None, use_cache=False
     for seq in ([only_seq] if only_seq is not None else itertools.product(range(len(vals)), repeat=seqlen)):
         feed = [0.0]
         counter = [0]
-        top, objs, fp, bounds = build(kinds, maximize, feed, counter, use_cache, array_valued)
+        top, objs, fp, bounds = build(kinds, maximize, feed, counter, use_cache, array_valued, inner)
         ref = [RefWrapper(k) for k in kinds]
         rcalls = [0]
         refused = False
@@ -118,7 +149,13 @@ def run_stack(res, kinds, maximize, seqlen, vals, only_seq=None, use_cache=False
                 # a memoising problem: every call of a sequence uses its own genome (no legitimate cache hit), so any
                 # value served from a cache filled by ANOTHER problem object shows up as a wrong returned value
                 x = np.array([0.5 + 0.125 * step, 3.5])
-            got = top.evaluate(x)
+            if shapes:
+                # extra positional / keyword arguments must reach the objective through every wrapper
+                shape = SHAPES[(step + len(kinds)) % len(SHAPES)]
+                got = top.evaluate(x, *shape[0], **shape[1])
+                v = shaped(v, shape)
+            else:
+                got = top.evaluate(x)
             if array_valued and isinstance(got, np.ndarray):
                 got = float(got[0])
             want = ref_eval(ref, v, maximize, rcalls)
@@ -153,20 +190,20 @@ def run_stack(res, kinds, maximize, seqlen, vals, only_seq=None, use_cache=False
                     bad = ("C16/direction", "maximize differs from the innermost problem's")
                 elif top.bounds is not bounds and not np.array_equal(top.bounds, bounds):
                     bad = ("C16/bounds", "bounds differ from the innermost problem's")
-                elif get_function_problem(top) is not fp:
+                elif inner == "function" and get_function_problem(top) is not fp:
                     bad = ("C16/unwrap", "get_function_problem does not return the innermost FunctionProblem")
                 else:
                     for a, b in PAIRS:
-                        exp = (a < b) if maximize else (a > b)
+                        exp = (abs(a - TARGET) > abs(b - TARGET)) if inner == "user" else ((a < b) if maximize else (a > b))
                         if bool(top.worse_than(a, b)) != exp:
-                            bad = ("C16/worse-than", f"worse_than({a}, {b}) = {top.worse_than(a, b)} under maximize={maximize}")
+                            bad = ("C16/worse-than" + (":user-defined-order" if inner == "user" else ""), f"worse_than({a}, {b}) = {top.worse_than(a, b)} under maximize={maximize}, the innermost problem says {exp}")
                             break
             st = h64((kinds, maximize, tuple((r.n, r.hit, r.eta) for r in ref)))
             res.states.add(st)
             res.transitions.add(h64((prev_state, vi, st)))
             prev_state = st
             if bad is not None:
-                rep = dict(rep_base, desc={"stack": list(kinds), "maximize": maximize, "values": [sgn * vals[i] for i in seq], "failing_call": step + 1, "use_cache": use_cache, "array_valued": array_valued})
+                rep = dict(rep_base, desc={"stack": list(kinds), "maximize": maximize, "values": [sgn * vals[i] for i in seq], "failing_call": step + 1, "use_cache": use_cache, "array_valued": array_valued, "inner": inner, "shapes": shapes})
                 res.add_violation(ID, bad[0], f"stack {'>'.join(kinds)} maximize={maximize} call {step + 1} of values {[sgn * vals[i] for i in seq]}: {bad[1]}", {}, rep)
                 break
         if refused or hits >= 2:
@@ -207,6 +244,13 @@ def units(tier, seed):
     for arr in (False, True):
         for i in range(0, len(sK), 8):
             us.append({"stacks": sK[i : i + 8], "len": 4, "vals": [1000.0, 1000.001, 1000.0025, 999.9985, 3.0], "array_valued": arr})
+    # a user-written innermost Problem (own evaluate, an order that is not the numeric one), and evaluate calls that
+    # carry extra positional / keyword arguments for the objective
+    s3 = stacks(3 if tier == "quick" else 4)
+    step = 20 if tier == "quick" else 60
+    for i in range(0, len(s3), step):
+        us.append({"stacks": s3[i : i + step], "len": 3, "vals": [0.0, 0.5, 0.75, 10.0], "inner": "user", "shapes": True})
+        us.append({"stacks": s3[i : i + step], "len": 3, "vals": [0.0, 0.5, 0.75, 10.0], "inner": "function", "shapes": True})
     return us
 
 
@@ -215,7 +259,10 @@ def run_unit(unit):
     for kinds in unit["stacks"]:
         kinds = tuple(kinds)
         for mx in (False, True):
-            run_stack(res, kinds, mx, unit["len"], unit["vals"], use_cache=unit.get("use_cache", False), array_valued=unit.get("array_valued", False))
+            run_stack(res, kinds, mx, unit["len"], unit["vals"], use_cache=unit.get("use_cache", False), array_valued=unit.get("array_valued", False),
+                      inner=unit.get("inner", "function"), shapes=unit.get("shapes", False))
+            if unit.get("shapes"):
+                res.flags["stacks called with extra arguments" + (" (user-defined innermost problem)" if unit.get("inner") == "user" else "")] += 1
         res.configs += 1
         res.configs_completed += 1
     res.status["ok"] += res.executions
@@ -239,5 +286,6 @@ def replay(rep):
     for v in base:
         if v not in uniq:
             uniq.append(v)
-    run_stack(res, tuple(d["stack"]), mx, len(base), uniq, only_seq=tuple(uniq.index(v) for v in base), use_cache=d.get("use_cache", False), array_valued=d.get("array_valued", False))
+    run_stack(res, tuple(d["stack"]), mx, len(base), uniq, only_seq=tuple(uniq.index(v) for v in base), use_cache=d.get("use_cache", False), array_valued=d.get("array_valued", False),
+              inner=d.get("inner", "function"), shapes=d.get("shapes", False))
     return res.violations
